@@ -52,9 +52,18 @@ pub struct Failure {
 
 impl Failure {
     pub fn new(sig: impl Into<String>, msg: impl Into<String>) -> Self {
+        let mut msg: String = msg.into();
+        if msg.len() > 1500 {
+            let mut cut = 1500;
+            while !msg.is_char_boundary(cut) {
+                cut -= 1;
+            }
+            msg.truncate(cut);
+            msg.push_str("…[truncated]");
+        }
         Failure {
             sig: sig.into(),
-            msg: msg.into(),
+            msg,
         }
     }
 }
